@@ -85,6 +85,13 @@ def main():
         run(["git", "-C", "/repo", "worktree", "remove", "--force", wt])
     d = os.path.join(VERIF, "seeded", sid)
     os.makedirs(d, exist_ok=True)
+    old = os.path.join(d, "meta.json")
+    if os.path.exists(old) and "suite_ok" not in meta:
+        o = json.load(open(old))
+        for k in ("suite_ok", "suite_tail"):
+            if k in o:
+                meta[k] = o[k]
+        meta["ran"] += [x for x in o.get("ran", []) if x.startswith("test suite")]
     shutil.copy(a.patch, os.path.join(d, "patch.diff"))
     shutil.copy(a.demo, os.path.join(d, "demo.py"))
     json.dump(meta, open(os.path.join(d, "meta.json"), "w"), indent=1)
